@@ -604,7 +604,14 @@ def run_ties(case):
     spheres = [Sphere(n=mk(sp["n"], 1.5), r=mk(sp["r"], 0.5), center=[mk(c, 1.0 + i + j) for j, c in enumerate(sp["c"])]) for i, sp in enumerate(case["spheres"])]
     scat = spheres[0] if len(spheres) == 1 else Spheres(spheres, warn=False)
     wl = case["wl"]
-    wl = {k: mk(v, 0.6) for k, v in wl.items()} if isinstance(wl, dict) else mk(wl, 0.66)
+    if isinstance(wl, dict):
+        # channel labels as a user gets them from an image (data.illumination.values holds numpy strings)
+        as_key = (lambda k_: np.str_(k_)) if case["vals"][0] > 1.1 else (lambda k_: k_)
+        wl = {as_key(k): mk(v, 0.6) for k, v in wl.items()}
+        if case["vals"][0] > 1.1:
+            pass
+    else:
+        wl = mk(wl, 0.66)
     theory = Mie() if case["lens_angle"] == "mie" else MieLens(lens_angle=mk(case["lens_angle"], 0.8))
     kw = dict(theory=theory, medium_index=mk(case["medium_index"], 1.33), illum_wavelen=wl, illum_polarization=(1, 0), noise_sd=mk(case["noise_sd"], 0.1))
     try:
@@ -612,6 +619,8 @@ def run_ties(case):
     except Exception as e:
         return Outcome(None, False, ["model_not_constructible:" + type(e).__name__], skipped=True)
     labels = [type(model).__name__, "k%d" % len(spheres)]
+    if isinstance(wl, dict) and any(type(k_) is np.str_ for k_ in wl):
+        labels.append("numpy_string_channel_labels")
     n_tied = 0
     cross = False
     for t in case["ties"]:
